@@ -542,10 +542,10 @@ class C15(fw.Property):
     level_text = ("Theorems (closed under the global context): length coding round trip at 13/269/65805 and RFC 8323 3.2 format of _serialize; decode(serialize m) = m; "
                   "data_received is a homomorphism over chunking (any segmentation of a stream gives the same outputs up to the first close); a stream of serialised "
                   "messages is processed exactly as the message sequence; CSM gate; Abort+close on oversize / TKL>8 / unparsable / critical signalling option; "
-                  "Ping->Pong with same token; Release/Abort -> error to token manager + close; empty messages ignored; no exception escapes data_received.")
+                  "Ping->Pong with same token; Release/Abort -> error to token manager + close; empty messages ignored; a close() is the last output of a data_received call "
+                  "(nothing after the own Abort), hence the complete outputs are segmentation independent; CSM gate over every event history.")
     level_note = ("Trusted: Coq kernel + vm_compute; translator + Lib/Py.v (validated by stream kernels); hand model Model/C15.v (validated by stream conn); fake asyncio.Transport "
-                  "(delivers no data after close(), like the selector transport); option formats as a fixed table (validated by format_table cases). Open finding: after sending "
-                  "its own Abort for a critical signalling option the endpoint keeps processing the rest of the segment (modelled faithfully).")
+                  "(delivers no data after close(), like the selector transport); option formats as a fixed table (validated by format_table cases).")
     rule = ("conn: structured streams (CSM, requests, responses, empty, all signalling codes incl. unknown, options of every format, lengths at 12/13/14/268/269/270 and "
             "occasionally 65804/65805/65806, local maximum 20/40/300/1152/1MiB with frames at max and max+1) with a malformed/oversized item at a random position in ~1/3 "
             "of the cases, byte mutations of such streams, and random byte strings; chunked whole / per frame / byte-wise / around frame boundaries / random / fixed stride; "
@@ -750,9 +750,11 @@ class C15(fw.Property):
         # segmentation independence
         for name in ("whole", "bytes"):
             if name in res:
-                other = upto_close(self.norm(res[name]["trace"]))
-                if other != got:
+                other = self.norm(res[name]["trace"])
+                if upto_close(other) != got:
                     return ("C15:chunking-dependent", "outputs up to the first close differ between the given chunking and '%s'" % name)
+                if other != full and not any(e[0] in ("req", "resp", "w", "abort") for e in full[len(got):] + other[len(got):]):
+                    return ("C15:chunking-dependent", "outputs after the first close differ between the given chunking and '%s'" % name)
                 if not res[name]["final"]["closed"] and not res["given"]["final"]["closed"] and res[name]["final"] != res["given"]["final"]:
                     return ("C15:chunking-dependent-state", "spool/settings differ between the given chunking and '%s'" % name)
         # nothing happens after the endpoint's own Abort
